@@ -229,6 +229,8 @@ func Run(run *ev.Run) {
 					}
 				}
 			}
+			// (b2) documents that also lack a required field: lenient callers receive the instance, so its defaults must be there
+			incomplete(run, set, td, g, rng, dfs)
 			// (c) aliasing
 			aliasing(run, set, td, want)
 		}
@@ -236,6 +238,120 @@ func Run(run *ev.Run) {
 	run.Require("constructors_checked", 3)
 	run.Require("decodes.json", 200)
 	run.Require("aliasing_probes", 3)
+	run.Require("incomplete_decodes", 20)
+}
+
+// incomplete decodes documents that omit a required field (top level, or inside a required record field) together with
+// defaulted fields. The decoder reports the missing field, but the instance it filled is what a lenient client hands to
+// the caller: every omitted defaulted field must carry its default, every supplied one the supplied value.
+func incomplete(run *ev.Run, set *bridge.Set, td *corpus.TypeDef, g *model.Gen, rng *rand.Rand, dfs []corpus.Field) {
+	s := set.Schema
+	full := td.FullName()
+	t := corpus.R(full)
+	type drop struct{ outer, inner string }
+	var drops []drop
+	for _, f := range s.AllFields(td) {
+		if f.Optional || f.Default != nil {
+			continue
+		}
+		drops = append(drops, drop{f.Name, ""})
+		if _, ftd := model.Resolve(s, f.Type); ftd != nil && ftd.Kind == "record" && f.Type.Ref != "" {
+			for _, nf := range s.AllFields(ftd) {
+				if !nf.Optional && nf.Default == nil {
+					drops = append(drops, drop{f.Name, nf.Name})
+					break
+				}
+			}
+		}
+	}
+	if len(drops) == 0 {
+		return
+	}
+	for rep := 0; rep < run.Pick(3, 12); rep++ {
+		base := g.Value(t, 0)
+		for di, dr := range drops {
+			v := model.Clone(base)
+			var modes []string
+			for i, f := range dfs {
+				if (rep+i+di)%3 != 2 {
+					delete(v.Fields, f.Name)
+					modes = append(modes, "omit")
+				} else {
+					v.Fields[f.Name] = g.Value(f.Type, 1)
+					modes = append(modes, "rand")
+				}
+			}
+			expected := refcodec.FillDefaults(s, t, v)
+			where := "top-level"
+			if dr.inner == "" {
+				delete(v.Fields, dr.outer)
+			} else if in := v.Fields[dr.outer]; in != nil && in.Kind == model.KRecord {
+				in = model.Clone(in)
+				delete(in.Fields, dr.inner)
+				v.Fields[dr.outer] = in
+				where = "nested"
+			} else {
+				continue
+			}
+			tree := refcodec.ToTree(s, t, v)
+			for _, rd := range []string{"json", "ror2", "untyped"} {
+				run.Eval(1)
+				var doc string
+				var p reflect.Value
+				var err error
+				switch rd {
+				case "json":
+					doc = refcodec.TreeJSON(tree, rng)
+					p, err = codec.Decode(codec.FormatByName("json-compact"), set, full, doc)
+				case "ror2":
+					doc = refcodec.TreeROR2(tree, refcodec.Header, rng)
+					p, err = codec.Decode(codec.FormatByName("ror2-header"), set, full, doc)
+				default:
+					doc = fmt.Sprint(tree)
+					p, err = codec.DecodeWith(restlicodec.NewInterfaceReader(untyped(tree)), set.New(full))
+				}
+				desc := map[string]any{"generation": GENERATION, "set": set.Name, "type": full, "reader": rd, "modes": strings.Join(modes, ","),
+					"dropped_required_field": dr.outer + map[bool]string{true: "", false: "." + dr.inner}[dr.inner == ""], "document": trunc(doc)}
+				fields, isMissing := codec.IsMissingFields(err)
+				if !isMissing {
+					// whether and how the absent required field is reported is C06's subject; nothing to observe here
+					run.Count("incomplete_not_reported_as_missing", 1)
+					continue
+				}
+				bad := false
+				for _, mf := range fields {
+					for _, f := range dfs {
+						if dr.inner == "" && mf == f.Name {
+							bad = true
+						}
+					}
+				}
+				desc["reported_missing"] = fields
+				if bad {
+					run.Violation(GENERATION+"/incomplete/"+rd+"/defaulted-field-reported-missing", desc)
+					continue
+				}
+				got, rerr := set.Read(p.Elem(), t)
+				if rerr != nil {
+					run.Inconclusive("bridge read: " + rerr.Error())
+					continue
+				}
+				ok := true
+				for i, f := range dfs {
+					if d := model.Diff(expected.Fields[f.Name], got.Fields[f.Name], "."+f.Name); d != "" {
+						desc["detail"] = d
+						run.Violation(fmt.Sprintf(GENERATION+"/incomplete/%s/%s/%s/%s", rd, where, modes[i], fieldShape(s, td, f.Name)), desc)
+						ok = false
+						break
+					}
+				}
+				if ok {
+					run.Count("incomplete_decodes", 1)
+					run.Distinct(fmt.Sprintf("incomplete|%s|%s|%s|%s", full, where, strings.Join(modes, ""), rd))
+				}
+			}
+		}
+	}
 }
 
 func whichField(s *corpus.Schema, td *corpus.TypeDef, diff string) string {
